@@ -3,7 +3,7 @@
 quick check of its property, keep the first failing-input replay as seeded/<name>/replay.json (the corpus every
 check runs first), record whether the check went red, and undo the patch straight afterwards."""
 import glob, json, os, shutil, subprocess, sys
-names = sys.argv[1:] or sorted(os.path.basename(d) for d in glob.glob('/verif/seeded/*') if os.path.isdir(d))
+names = [a for a in sys.argv[1:] if not a.startswith('--')] or sorted(os.path.basename(d) for d in glob.glob('/verif/seeded/*') if os.path.isdir(d))
 for name in names:
     d = os.path.join('/verif/seeded', name)
     meta = json.load(open(os.path.join(d, 'meta.json')))
